@@ -72,6 +72,11 @@ def check(run):
     _C01.accept(R, RID='C06.rsv1')      # no compressed frame a conforming peer may send (RSV1 on a first fragment) is refused
     fail(R)
     activate(R)
+    from . import C02 as _C02b, C11 as _C11b
+    with R.as_rule('C06.activate'):
+        _C02b.nosnapshot(R)      # ... and is read when used: messages in the same read as the handshake are inflated
+    with R.as_rule('C06.wiring'):
+        _C11b.locked(R)          # compressed frames go out whole (all socket writes inside the lock)
     from . import C02 as _C02
     _C02.parser_lifetime(R, RID='C06.activate')      # compression is switched on in the running parser, not in a new one
     from . import C01
